@@ -240,6 +240,17 @@ func (ss *Package) buildObjectSchema(srcMsg protoreflect.MessageDescriptor, opts
 		}
 	}
 
+	// The codec and clients find properties by name, among the properties of
+	// flattened children as well. (An exposed oneof or a flattened message can
+	// bring a name the message already has.)
+	propertyNames := map[string]struct{}{}
+	for _, prop := range objectSchema.ClientProperties() {
+		if _, ok := propertyNames[prop.JSONName]; ok {
+			return nil, fmt.Errorf("properties of %s: %q is defined more than once", srcMsg.FullName(), prop.JSONName)
+		}
+		propertyNames[prop.JSONName] = struct{}{}
+	}
+
 	entity, err := findPSMOptions(srcMsg)
 	if err != nil {
 		return nil, fmt.Errorf("PSM options for %s: %w", srcMsg.FullName(), err)
